@@ -234,7 +234,10 @@ def generate(rng, tier):
         elif r < 0.62 and synced_cands:
             ops.append({"op": "synced", "comp": rng.choice(synced_cands)})
         elif r < 0.74:
-            if rng.random() < 0.25:
+            if rng.random() < 0.12:
+                # the application goes on with a deep copy of its configuration (a "preview" mode, a worker's copy)
+                ops.append({"op": "deepcopy"})
+            elif rng.random() < 0.25:
                 # a palette of a configuration the caller does not keep: ColorsConfig(explicit).get_palette()
                 ops.append({"op": "orphan_palette", "gc": rng.random() < 0.5})
             else:
@@ -807,6 +810,16 @@ def execute(trace, rng):
                 if not isinstance(text, str):
                     raise Violation("report", "not-a-text", repr(type(text)))
                 w.stats["reports_midway"] = w.stats.get("reports_midway", 0) + 1
+            elif k == "deepcopy":
+                import copy
+                M2 = w.sut("copy.deepcopy(conf)", copy.deepcopy, M)
+                if G is M:
+                    # the original stays the global configuration, as it is now; it gets no further deliveries
+                    regG = copy.deepcopy(regM)
+                    g_registered = list(w.used)
+                    glabel = "M"
+                M = M2
+                w.stats["deep_copies"] = w.stats.get("deep_copies", 0) + 1
             elif k == "orphan_palette":
                 conf2 = w.sut("ColorsConfig(init) (temporary)", w.conf_cls, real_init(trace), no_color=nc)
                 reg2 = Registry()
@@ -831,7 +844,7 @@ def execute(trace, rng):
             if glabel == "tainted":
                 continue
             if G is not M:
-                w.check_conf(G, regG, g_registered, "O")
+                w.check_conf(G, regG, g_registered, "M" if glabel == "M" else "O")
             w.check_global(G, regG, glabel)
         # final: same set, canonical order, pristine process
         if not w.quarantine:
